@@ -112,6 +112,12 @@ def check_case(case):
             bi += 1
             recs.append((pre + cls, 1000 * j, 1000 * j + 500, "G", v, float("nan") if baf is None else baf))
             meta.append((cls, r, v, baf))
+    from vk import gen
+
+    # the calls are a per-row function: the rows may arrive in any order (seeded change C02j looked the reference copies
+    # up once per chromosome block, assuming each chromosome's rows are contiguous)
+    order = gen.row_order(case, [r[0] for r in recs])
+    recs, meta = [recs[i] for i in order], [meta[i] for i in order]
     cols = ["chromosome", "start", "end", "gene", "log2", "baf"]
     df = pd.DataFrame.from_records(recs, columns=cols)
     if not case["with_baf"]:
